@@ -589,12 +589,31 @@ def run_history(fam, kind, impl, mode, rng, rec, h):
                 'tree-damaged', 'contents-differ-from-uncached-twin',
                 'contents-raised', 'result-differs-from-uncached-twin'):
             d['finding'] = 'F34'
+        d['pre_embedded'] = state.get('pre_embedded')
+        d['pre_sole_key_leaf'] = state.get('pre_sole')
+        if False:
+            pass
         elif impl == 'py' and mode == 'in-call' and not leaves_only:
             # F16 needs an INTERIOR node ghostified under the running call;
             # histories whose in-call sweeps touch leaves only must hold
             # (88 000 calls / 22 000 such sweeps on the pinned tree: none
-            # fails), so nothing is excused there
-            d['finding'] = 'F16'
+            # fails), so nothing is excused there.  And it shows in two
+            # situations only (310 of 310 F16 cases in a survey of 600
+            # histories): an INSERTION into a tree that is one bucket stored
+            # inline in the root (the reloaded root gets a new bucket, the
+            # insert goes into the old one), and a DELETION that may empty a
+            # bucket (a leaf with exactly one key exists).  An insertion into
+            # a multi-bucket tree under the same sweeps holds on the pinned
+            # tree and is judged without excuse.
+            op_ = kw.get('op')
+            inserting = op_ in ('add', 'setitem', 'insert', 'setdefault',
+                                'sinsert', 'update', 'supdate', 'ior')
+            # (the multi-key removers can first thin a leaf down to one key
+            # and then empty it)
+            if state.get('pre_embedded') or (
+                    not inserting and state.get('pre_sole')) or \
+                    op_ in ('ixor', 'isub', 'iand') or op_ is None:
+                d['finding'] = 'F16'
         rec.violation(mech, **d)
 
     def pin_check(op, args, outcome):
@@ -645,6 +664,10 @@ def run_history(fam, kind, impl, mode, rng, rec, h):
                 w = walker.walk(t, is_mapping)
             except Exception:
                 w = None
+        state['pre_embedded'] = bool(w.embedded) if w is not None else None
+        state['pre_sole'] = sorted(
+            repr(lk[0]) for lk in w.leaf_keys if len(lk) == 1) \
+            if w is not None else None
         # --- a deliberately failing call now and then -------------------
         if rng.random() < 0.12:
             for op, args, kw in bad_calls(fam, kind, rng, present,
